@@ -210,4 +210,781 @@ theorem decodeF_rt (H : Bytes → Bytes) (hH : ∀ m, (H m).length = 32) (strict
           rw [List.append_nil] at this
           simp [e1, valueEnc, hd, this, view, viewValue]
 
+/-- **Round trip (node codec).**  Every well-formed node — leaf or branch, without value, with an
+    inline value or a value stored by hash, any partial key of up to 65535 nibbles, children inlined
+    or referenced by hash — decodes from its encoding to the equivalent node `view H n`, whichever
+    way pkg/scale treats short reads.  `H` is any 32-byte hash function. -/
+theorem C07_node_roundtrip (H : Bytes → Bytes) (hH : ∀ m, (H m).length = 32) (strict : Bool)
+    (n : Node) (hwf : WF n) : decode strict (encode H n) = .ok (view H n) :=
+  decodeF_rt H hH strict _ n hwf (Nat.lt_succ_self _)
+
+/-- **Header round trip**, for the five node variants and every partial key length up to 65535,
+    with arbitrary following bytes `r`. -/
+theorem C07_header_roundtrip (v : Variant) (hv : v ∈ nodeVariants) (pk r : Bytes)
+    (h : pk.length ≤ 65535) : decodeHeader (encodeHeader v pk.length ++ r) = .ok (v, pk.length, r) :=
+  header_roundtrip v hv pk.length h r
+
+/-- **Partial key round trip.** -/
+theorem C07_key_roundtrip (pk r : Bytes) (hn : Nibbles pk) :
+    decodeKey pk.length (nibblesToKeyLE pk ++ r) = .ok (pk, r) :=
+  key_roundtrip pk r hn
+
+example : decodeHeader (encodeHeader leafV 62 ++ [7]) = .ok (leafV, 62, [7]) :=
+  header_roundtrip leafV (by decide) 62 (by decide) [7]
+example : decodeHeader (encodeHeader leafV 63 ++ [7]) = .ok (leafV, 63, [7]) :=
+  header_roundtrip leafV (by decide) 63 (by decide) [7]
+example : decodeHeader (encodeHeader leafV 64 ++ [7]) = .ok (leafV, 64, [7]) :=
+  header_roundtrip leafV (by decide) 64 (by decide) [7]
+example : decodeHeader (encodeHeader branchHashedV (15 + 255 * 3) ++ []) = .ok (branchHashedV, 15 + 255 * 3, []) :=
+  header_roundtrip branchHashedV (by decide) _ (by decide) []
+example : decodeHeader (encodeHeader leafHashedV 65535 ++ []) = .ok (leafHashedV, 65535, []) :=
+  header_roundtrip leafHashedV (by decide) _ (by decide) []
+
+/-- non-vacuity: a branch with a hashed value, an inlined leaf and a child referenced by hash is
+    well-formed -/
+example : WF (.branch [1, 2, 3] (some [9, 9]) true
+    ([.leaf [4] (some [5]) false, .stub (List.replicate 32 7)] ++ List.replicate 14 .empty)) := by
+  simp [WF, WFKids, Nibbles, ValueOK, List.replicate]
+
+/-! ### robustness of the node decoder -/
+
+
+
+theorem decodeLenRun_safe (v : Variant) : ∀ (r : Bytes) (acc : UInt16),
+    decodeLenRun v acc r ≠ .panic ∧ decodeLenRun v acc r ≠ .fuel := by
+  intro r
+  induction r with
+  | nil => intro acc; simp [decodeLenRun]
+  | cons b r ih =>
+    intro acc
+    simp only [decodeLenRun]
+    split
+    · simp
+    · split
+      · simp
+      · exact ih _
+
+theorem decodeHeader_safe (bs : Bytes) : decodeHeader bs ≠ .panic ∧ decodeHeader bs ≠ .fuel := by
+  cases bs with
+  | nil => simp [decodeHeader]
+  | cons b r =>
+    simp only [decodeHeader]
+    split
+    · simp
+    · split
+      · simp
+      · split
+        · simp
+        · exact decodeLenRun_safe _ _ _
+
+theorem keyLEToNibbles_length (k : Bytes) : (keyLEToNibbles k).length = 2 * k.length := by
+  induction k with
+  | nil => rfl
+  | cons a t ih => simp [keyLEToNibbles] at ih ⊢; omega
+
+theorem decodeKey_safe (pkl : Nat) (r : Bytes) : decodeKey pkl r ≠ .panic ∧ decodeKey pkl r ≠ .fuel := by
+  unfold decodeKey
+  by_cases h0 : pkl = 0
+  · simp [h0]
+  · simp only [h0, if_false]
+    cases hr : readN (pkl / 2 + pkl % 2) r with
+    | none => simp
+    | some p =>
+      obtain ⟨got, r'⟩ := p
+      simp only []
+      by_cases hl : got.length ≠ pkl / 2 + pkl % 2
+      · simp [hl]
+      · have := keyLEToNibbles_length got
+        have h2 : ¬ (pkl % 2 > (keyLEToNibbles got).length) := by
+          simp at hl; omega
+        simp [hl, h2]
+
+theorem decodeHashedValue_safe (r : Bytes) : decodeHashedValue r ≠ .panic ∧ decodeHashedValue r ≠ .fuel := by
+  unfold decodeHashedValue
+  split
+  · simp
+  · split <;> simp
+
+theorem decodeLeaf_safe (strict : Bool) (v : Variant) (pkl : Nat) (r : Bytes) :
+    decodeLeaf strict v pkl r ≠ .panic ∧ decodeLeaf strict v pkl r ≠ .fuel := by
+  unfold decodeLeaf
+  have hk := decodeKey_safe pkl r
+  split
+  · simp
+  · simp_all
+  · simp_all
+  · rename_i pk r1 _
+    split
+    · have hh := decodeHashedValue_safe r1
+      split <;> simp_all
+    · split <;> simp
+
+
+
+/-- number of non-zero bytes: the termination measure of the recursion into inlined children -/
+def nz (b : Bytes) : Nat := b.countP (· != 0)
+
+theorem nz_take (n : Nat) (r : Bytes) : nz (r.take n) ≤ nz r := (List.take_sublist n r).countP_le
+theorem nz_drop (n : Nat) (r : Bytes) : nz (r.drop n) ≤ nz r := (List.drop_sublist n r).countP_le
+theorem nz_cons (b : UInt8) (r : Bytes) : nz r ≤ nz (b :: r) := by
+  simp [nz, List.countP_cons]
+theorem nz_cons_ne (b : UInt8) (r : Bytes) (h : b ≠ 0) : nz (b :: r) = nz r + 1 := by
+  simp [nz, List.countP_cons, h]
+theorem nz_pad (a : Bytes) (k : Nat) : nz (a ++ List.replicate k 0) = nz a := by
+  simp [nz, List.countP_append, List.countP_replicate]
+theorem nz_le_length (r : Bytes) : nz r ≤ r.length := List.countP_le_length
+
+theorem readBuf_nz (strict : Bool) (n : Nat) (r buf r' : Bytes) (h : readBuf strict n r = some (buf, r')) :
+    nz buf ≤ nz r ∧ nz r' ≤ nz r := by
+  unfold readBuf at h
+  cases r with
+  | nil => simp at h
+  | cons x xs =>
+    simp only [] at h
+    split at h
+    · simp at h
+    · simp only [Option.some.injEq, Prod.mk.injEq] at h
+      obtain ⟨h1, h2⟩ := h
+      subst h1; subst h2
+      exact ⟨by rw [nz_pad]; exact nz_take _ _, nz_drop _ _⟩
+
+theorem compactLen_nz (strict : Bool) (r : Bytes) (len : Nat) (r1 : Bytes)
+    (h : compactLen strict r = some (len, r1)) : nz r1 ≤ nz r := by
+  cases r with
+  | nil => simp [compactLen] at h
+  | cons p t =>
+    have hc := nz_cons p t
+    simp only [compactLen] at h
+    split at h
+    · simp at h; rw [← h.2]; exact hc
+    · split at h
+      · cases t with
+        | nil => simp at h
+        | cons b t2 =>
+          simp only [] at h
+          split at h
+          · simp at h
+          · simp at h; rw [← h.2]; exact Nat.le_trans (nz_cons b t2) hc
+      · split at h
+        · cases hb : readBuf strict 3 t with
+          | none => simp [hb] at h
+          | some q =>
+            obtain ⟨buf, r2⟩ := q
+            have := (readBuf_nz strict 3 t buf r2 hb).2
+            simp only [hb] at h
+            split at h
+            · simp at h
+            · simp at h; rw [← h.2]; omega
+        · cases hb : readBuf strict (p.toNat / 4 + 4) t with
+          | none => simp [hb] at h
+          | some q =>
+            obtain ⟨buf, r2⟩ := q
+            have := (readBuf_nz strict _ t buf r2 hb).2
+            simp only [hb] at h
+            split at h
+            · split at h
+              · simp at h
+              · simp at h; rw [← h.2]; omega
+            · split at h
+              · split at h
+                · simp at h
+                · simp at h; rw [← h.2]; omega
+              · simp at h
+
+theorem scaleBytes_nz (strict : Bool) (r hash r' : Bytes) (h : scaleBytes strict r = some (hash, r')) :
+    nz hash ≤ nz r ∧ nz r' ≤ nz r := by
+  unfold scaleBytes at h
+  cases hc : compactLen strict r with
+  | none => simp [hc] at h
+  | some q =>
+    obtain ⟨len, r1⟩ := q
+    have h1 := compactLen_nz strict r len r1 hc
+    simp only [hc] at h
+    split at h
+    · simp at h
+    · split at h
+      · simp at h; rw [h.1, ← h.2]; exact ⟨by simp [nz], h1⟩
+      · have := readBuf_nz strict len r1 hash r' h
+        omega
+
+
+theorem decodeLenRun_nz (v : Variant) : ∀ (r0 : Bytes) (acc : UInt16) (v' : Variant) (n : Nat) (r : Bytes),
+    decodeLenRun v acc r0 = .ok (v', n, r) → nz r ≤ nz r0 := by
+  intro r0
+  induction r0 with
+  | nil => intro acc v' n r h; simp [decodeLenRun] at h
+  | cons b t ih =>
+    intro acc v' n r h
+    simp only [decodeLenRun] at h
+    split at h
+    · simp at h
+    · split at h
+      · simp at h; rw [← h.2.2]; exact nz_cons b t
+      · exact Nat.le_trans (ih _ _ _ _ h) (nz_cons b t)
+
+theorem decodeHeader_nz (bs : Bytes) (v : Variant) (pkl : Nat) (r : Bytes)
+    (h : decodeHeader bs = .ok (v, pkl, r)) (hv : v ≠ emptyV) : nz r + 1 ≤ nz bs := by
+  cases bs with
+  | nil => simp [decodeHeader] at h
+  | cons b t =>
+    have hb : b ≠ 0 := by
+      intro e; subst e
+      have hz : decodeHeader (0 :: t) = .ok (emptyV, 0, t) := by
+        have h0 : (emptyV.pklMask == emptyV.bits) = true := by decide
+        simp [decodeHeader, dhb_zero, h0]
+      rw [hz] at h
+      simp at h
+      exact hv h.1.symm
+    rw [nz_cons_ne b t hb]
+    simp only [decodeHeader] at h
+    split at h
+    · simp at h
+    · split at h
+      · simp at h; rw [← h.2.2]; omega
+      · split at h
+        · simp at h; rw [← h.2.2]; omega
+        · have := decodeLenRun_nz _ _ _ _ _ _ h; omega
+
+theorem readN_nz (n : Nat) (r got r' : Bytes) (h : readN n r = some (got, r')) : nz r' ≤ nz r := by
+  unfold readN at h
+  cases r with
+  | nil => simp at h
+  | cons x xs => simp at h; rw [← h.2]; exact nz_drop _ _
+
+theorem decodeKey_nz (pkl : Nat) (r pk r1 : Bytes) (h : decodeKey pkl r = .ok (pk, r1)) : nz r1 ≤ nz r := by
+  unfold decodeKey at h
+  by_cases h0 : pkl = 0
+  · simp [h0] at h; rw [← h.2]; exact Nat.le_refl _
+  · simp only [h0, if_false] at h
+    cases hr : readN (pkl / 2 + pkl % 2) r with
+    | none => simp [hr] at h
+    | some p =>
+      obtain ⟨got, r'⟩ := p
+      have := readN_nz _ _ _ _ hr
+      simp only [hr] at h
+      split at h
+      · simp at h
+      · split at h
+        · simp at h
+        · simp at h; rw [← h.2]; exact this
+
+theorem decodeHashedValue_nz (r hv r3 : Bytes) (h : decodeHashedValue r = .ok (hv, r3)) : nz r3 ≤ nz r := by
+  unfold decodeHashedValue at h
+  cases hr : readN hashLength r with
+  | none => simp [hr] at h
+  | some p =>
+    obtain ⟨got, r'⟩ := p
+    have := readN_nz _ _ _ _ hr
+    simp only [hr] at h
+    split at h
+    · simp at h
+    · simp at h; rw [← h.2]; exact this
+
+/-- the children loop never panics if decoding an inlined child never does -/
+theorem decodeKids_np (strict : Bool) (dec : Bytes → Out Node) (hd : ∀ h, dec h ≠ .panic) :
+    ∀ (bits : List Bool) (r : Bytes), decodeKids strict dec bits r ≠ .panic := by
+  intro bits
+  induction bits with
+  | nil => intro r; simp [decodeKids]
+  | cons b bs ih =>
+    intro r
+    cases b with
+    | false =>
+      simp only [decodeKids]
+      have := ih r
+      split <;> simp_all
+    | true =>
+      simp only [decodeKids]
+      cases hs : scaleBytes strict r with
+      | none => simp
+      | some p =>
+        obtain ⟨hash, r'⟩ := p
+        simp only []
+        have h1 := hd hash
+        have h2 := ih r'
+        by_cases hl : hash.length < hashLength
+        · simp only [hl, if_true]
+          cases hdh : dec hash with
+          | ok n =>
+            cases n with
+            | empty => simp
+            | stub mv => simp only []; split <;> simp_all
+            | leaf a b c => simp only []; split <;> simp_all
+            | branch a b c d => simp only []; split <;> simp_all
+          | err e => simp
+          | panic => exact absurd hdh h1
+          | fuel => simp
+        · simp only [hl, if_false]
+          split <;> simp_all
+
+/-- the children loop runs out of fuel only if decoding an inlined child does -/
+theorem decodeKids_nf (strict : Bool) (dec : Bytes → Out Node) (B : Nat)
+    (hd : ∀ h, nz h < B → dec h ≠ .fuel) :
+    ∀ (bits : List Bool) (r : Bytes), nz r < B → decodeKids strict dec bits r ≠ .fuel := by
+  intro bits
+  induction bits with
+  | nil => intro r _; simp [decodeKids]
+  | cons b bs ih =>
+    intro r hr
+    cases b with
+    | false =>
+      simp only [decodeKids]
+      have := ih r hr
+      split <;> simp_all
+    | true =>
+      simp only [decodeKids]
+      cases hs : scaleBytes strict r with
+      | none => simp
+      | some p =>
+        obtain ⟨hash, r'⟩ := p
+        simp only []
+        obtain ⟨hz1, hz2⟩ := scaleBytes_nz strict r hash r' hs
+        have h1 := hd hash (by omega)
+        have h2 := ih r' (by omega)
+        by_cases hl : hash.length < hashLength
+        · simp only [hl, if_true]
+          cases hdh : dec hash with
+          | ok n =>
+            cases n with
+            | empty => simp
+            | stub mv => simp only []; split <;> simp_all
+            | leaf a b c => simp only []; split <;> simp_all
+            | branch a b c d => simp only []; split <;> simp_all
+          | err e => simp
+          | panic => simp
+          | fuel => exact absurd hdh h1
+        · simp only [hl, if_false]
+          split <;> simp_all
+
+theorem decodeBranch_np (strict : Bool) (dec : Bytes → Out Node) (hd : ∀ h, dec h ≠ .panic)
+    (v : Variant) (pkl : Nat) (r : Bytes) : decodeBranch strict dec v pkl r ≠ .panic := by
+  unfold decodeBranch
+  have hk := (decodeKey_safe pkl r).1
+  have hK := decodeKids_np strict dec hd
+  cases hkey : decodeKey pkl r with
+  | err e => simp
+  | panic => exact absurd hkey hk
+  | fuel => simp
+  | ok p =>
+    obtain ⟨pk, r1⟩ := p
+    simp only []
+    cases r1 with
+    | nil => simp
+    | cons b0 r1' =>
+      simp only []
+      split
+      · cases hs : scaleBytes strict (List.drop 1 r1') with
+        | none => simp
+        | some q =>
+          obtain ⟨val, r3⟩ := q
+          simp only []
+          have := hK (bitmapBits b0 (r1'.headD 0)) r3
+          split <;> simp_all
+      · split
+        · have hh := (decodeHashedValue_safe (List.drop 1 r1')).1
+          cases hs : decodeHashedValue (List.drop 1 r1') with
+          | ok q =>
+            obtain ⟨hv, r3⟩ := q
+            simp only []
+            have := hK (bitmapBits b0 (r1'.headD 0)) r3
+            split <;> simp_all
+          | err e => simp
+          | panic => exact absurd hs hh
+          | fuel => simp
+        · have := hK (bitmapBits b0 (r1'.headD 0)) (List.drop 1 r1')
+          split <;> simp_all
+
+theorem decodeBranch_nf (strict : Bool) (dec : Bytes → Out Node) (B : Nat)
+    (hd : ∀ h, nz h < B → dec h ≠ .fuel)
+    (v : Variant) (pkl : Nat) (r : Bytes) (hr : nz r < B) : decodeBranch strict dec v pkl r ≠ .fuel := by
+  unfold decodeBranch
+  have hk := (decodeKey_safe pkl r).2
+  have hK := decodeKids_nf strict dec B hd
+  cases hkey : decodeKey pkl r with
+  | err e => simp
+  | panic => simp
+  | fuel => exact absurd hkey hk
+  | ok p =>
+    obtain ⟨pk, r1⟩ := p
+    have hz1 := decodeKey_nz pkl r pk r1 hkey
+    simp only []
+    cases r1 with
+    | nil => simp
+    | cons b0 r1' =>
+      have hz2 : nz (List.drop 1 r1') ≤ nz (b0 :: r1') :=
+        Nat.le_trans (nz_drop 1 r1') (nz_cons b0 r1')
+      simp only []
+      split
+      · cases hs : scaleBytes strict (List.drop 1 r1') with
+        | none => simp
+        | some q =>
+          obtain ⟨val, r3⟩ := q
+          simp only []
+          have hz3 := (scaleBytes_nz strict _ val r3 hs).2
+          have := hK (bitmapBits b0 (r1'.headD 0)) r3 (by omega)
+          split <;> simp_all
+      · split
+        · have hh := (decodeHashedValue_safe (List.drop 1 r1')).2
+          cases hs : decodeHashedValue (List.drop 1 r1') with
+          | ok q =>
+            obtain ⟨hv, r3⟩ := q
+            simp only []
+            have hz3 := decodeHashedValue_nz _ hv r3 hs
+            have := hK (bitmapBits b0 (r1'.headD 0)) r3 (by omega)
+            split <;> simp_all
+          | err e => simp
+          | panic => simp
+          | fuel => exact absurd hs hh
+        · have := hK (bitmapBits b0 (r1'.headD 0)) (List.drop 1 r1') (by omega)
+          split <;> simp_all
+
+theorem decodeF_np (strict : Bool) : ∀ (f : Nat) (bs : Bytes), decodeF strict f bs ≠ .panic := by
+  intro f
+  induction f with
+  | zero => intro bs; simp [decodeF]
+  | succ f ih =>
+    intro bs
+    simp only [decodeF]
+    have hh := (decodeHeader_safe bs).1
+    cases hdr : decodeHeader bs with
+    | err e => simp
+    | panic => exact absurd hdr hh
+    | fuel => simp
+    | ok p =>
+      obtain ⟨v, pkl, r⟩ := p
+      simp only []
+      split
+      · simp
+      · split
+        · exact (decodeLeaf_safe strict v pkl r).1
+        · split
+          · exact decodeBranch_np strict _ ih v pkl r
+          · simp
+
+theorem decodeF_nf (strict : Bool) : ∀ (f : Nat) (bs : Bytes), nz bs < f → decodeF strict f bs ≠ .fuel := by
+  intro f
+  induction f with
+  | zero => intro bs h; omega
+  | succ f ih =>
+    intro bs hbs
+    simp only [decodeF]
+    have hh := (decodeHeader_safe bs).2
+    cases hdr : decodeHeader bs with
+    | err e => simp
+    | panic => simp
+    | fuel => exact absurd hdr hh
+    | ok p =>
+      obtain ⟨v, pkl, r⟩ := p
+      simp only []
+      split
+      · simp
+      · rename_i hne
+        have hz := decodeHeader_nz bs v pkl r hdr hne
+        split
+        · exact (decodeLeaf_safe strict v pkl r).2
+        · split
+          · exact decodeBranch_nf strict _ f ih v pkl r (by omega)
+          · simp
+
+/-- **Robustness (node codec): no panic.**  For every byte string, under either behaviour of short
+    reads in pkg/scale, `node.Decode` returns a node or an error. -/
+theorem C07_no_panic (strict : Bool) (bs : Bytes) : decode strict bs ≠ .panic :=
+  decodeF_np strict _ bs
+
+/-- **Robustness (node codec): termination.**  The recursion into inlined children always ends:
+    the model never runs out of the fuel `len bs + 1` (each level consumes a non-zero header byte). -/
+theorem C07_total (strict : Bool) (bs : Bytes) : decode strict bs ≠ .fuel :=
+  decodeF_nf strict _ bs (Nat.lt_succ_of_le (nz_le_length bs))
+
+/-- every byte string decodes to a node or to one of the error classes -/
+theorem C07_decode_ok_or_err (strict : Bool) (bs : Bytes) :
+    (∃ n, decode strict bs = .ok n) ∨ (∃ e, decode strict bs = .err e) := by
+  have h1 := C07_no_panic strict bs
+  have h2 := C07_total strict bs
+  cases h : decode strict bs with
+  | ok n => exact Or.inl ⟨n, rfl⟩
+  | err e => exact Or.inr ⟨e, rfl⟩
+  | panic => exact absurd h h1
+  | fuel => exact absurd h h2
+
+
+/-! ### the triedb codec -/
+
+
+theorem unmarshal_ok (quirk : Bool) (h : Bytes) (hh : HashOK quirk h) : unmarshalH256 quirk h = some h := by
+  obtain ⟨h1, h2⟩ := hh
+  unfold unmarshalH256
+  have ht : h.take 32 = h := by rw [← h1]; exact List.take_length
+  cases quirk with
+  | false => simp [h1, ht]
+  | true => simp [h1, ht, h2 rfl]
+
+theorem tdecodeKey_rt (d r : Bytes) (o : Nat) (ho : o < 2) (hd : d = [] → o = 0) :
+    tdecodeKey (2 * d.length - o) (d ++ r) = .ok (d, o, r) := by
+  unfold tdecodeKey
+  cases d with
+  | nil => simp [hd rfl]
+  | cons x xs =>
+    have h0 : ¬ (2 * (x :: xs).length - o = 0) := by simp; omega
+    have hm : (2 * (x :: xs).length - o) % 2 = o := by simp; omega
+    have hn : (2 * (x :: xs).length - o) / 2 + o = (x :: xs).length := by
+      simp; omega
+    simp only [h0, if_false]
+    rw [hm, hn, readN_append (x :: xs) r (by simp)]
+    simp
+
+theorem tdecodeHashedValue_rt (quirk : Bool) (h r : Bytes) (hh : HashOK quirk h) :
+    tdecodeHashedValue quirk (h ++ r) = .ok (h, r) := by
+  unfold tdecodeHashedValue
+  have hne : h ≠ [] := by intro e; have := hh.1; simp [e] at this
+  have : readN 32 (h ++ r) = some (h, r) := by
+    have := readN_append h r hne
+    rw [hh.1] at this; exact this
+  rw [this]
+  simp [hh.1, unmarshal_ok quirk h hh]
+
+theorem tdecodeKids_rt (quirk strict : Bool) : ∀ (kids : List TChild) (r : Bytes),
+    (∀ c ∈ kids, TChildOK quirk c) →
+      tdecodeKids quirk strict (kids.map (fun c => !c.isNone)) (kids.flatMap tchildEnc ++ r) = .ok kids := by
+  intro kids
+  induction kids with
+  | nil => intro r _; simp [tdecodeKids]
+  | cons c cs ih =>
+    intro r hok
+    have hcs := ih r (fun c hc => hok c (by simp [hc]))
+    have hc := hok c (by simp)
+    cases c with
+    | none =>
+      have e : (!TChild.isNone .none) = false := rfl
+      simp only [List.map_cons, List.flatMap_cons, tchildEnc, List.nil_append, e, tdecodeKids, hcs]
+    | inline b =>
+      simp only [TChildOK] at hc
+      have e : (!TChild.isNone (.inline b)) = true := rfl
+      simp only [List.map_cons, List.flatMap_cons, tchildEnc, List.append_assoc, e, tdecodeKids]
+      rw [scaleBytes_enc strict b (by omega)]
+      simp only [hc, if_true, hcs]
+    | hashed h =>
+      simp only [TChildOK] at hc
+      have e : (!TChild.isNone (.hashed h)) = true := rfl
+      simp only [List.map_cons, List.flatMap_cons, tchildEnc, List.append_assoc, e, tdecodeKids]
+      rw [scaleBytes_enc strict h (by rw [hc.1]; decide)]
+      have : ¬ (h.length < 32) := by rw [hc.1]; decide
+      simp only [this, if_false, unmarshal_ok quirk h hc, hcs]
+
+theorem tleafVariant_facts (v : TValue) :
+    tleafVariant v ∈ nodeVariants ∧ tleafVariant v ≠ emptyV ∧
+    (tleafVariant v = leafV ∨ tleafVariant v = leafHashedV) := by
+  cases v <;> simp only [tleafVariant] <;> decide
+
+theorem tbranchVariant_facts (v : Option TValue) :
+    tbranchVariant v ∈ nodeVariants ∧ tbranchVariant v ≠ emptyV ∧
+    ¬ (tbranchVariant v = leafV ∨ tbranchVariant v = leafHashedV) ∧
+    (tbranchVariant v = branchV ∨ tbranchVariant v = branchValV ∨ tbranchVariant v = branchHashedV) := by
+  cases v with
+  | none => decide
+  | some x => cases x <;> simp only [tbranchVariant] <;> decide
+
+/-- **Round trip (triedb codec)**, parametric in the zero-hash behaviour. -/
+theorem tnode_roundtrip (quirk strict : Bool) (n : TNode) (hwf : TWF quirk n) :
+    tdecodeG quirk strict (tencode n) = .ok n := by
+  cases n with
+  | empty =>
+    have : tencode .empty = [0] := rfl
+    rw [this]; simp [tdecodeG, decodeHeader_zero]
+  | leaf d o v =>
+    simp only [TWF] at hwf
+    obtain ⟨ho, hd, hlen, hv⟩ := hwf
+    obtain ⟨f1, f2, f3⟩ := tleafVariant_facts v
+    simp only [tencode, tencodeLeaf, tencodeHeader, List.append_assoc, tdecodeG]
+    rw [header_roundtrip _ f1 _ hlen]
+    simp only [f2, if_false]
+    rw [tdecodeKey_rt d _ o ho hd]
+    simp only [f3, if_true, tdecodeLeaf]
+    cases v with
+    | inline b =>
+      simp only [TValueOK] at hv
+      have e : ¬ (tleafVariant (.inline b) = leafHashedV) := by simp only [tleafVariant]; decide
+      have hs := scaleBytes_enc strict b hv []
+      rw [List.append_nil] at hs
+      simp [e, tvalueEnc, hs]
+    | hashed h =>
+      simp only [TValueOK] at hv
+      have e : tleafVariant (.hashed h) = leafHashedV := rfl
+      have hs := tdecodeHashedValue_rt quirk h [] hv
+      rw [List.append_nil] at hs
+      simp [e, tvalueEnc, hs]
+  | branch d o v kids =>
+    simp only [TWF] at hwf
+    obtain ⟨ho, hd, hlen, hv, hk16, hkids⟩ := hwf
+    obtain ⟨f1, f2, f3, f4⟩ := tbranchVariant_facts v
+    obtain ⟨b0, b1, hbm, hbits⟩ := bitmap_roundtrip (kids.map (fun c => !c.isNone)) (by simp [hk16])
+    have hK := tdecodeKids_rt quirk strict kids [] hkids
+    rw [List.append_nil] at hK
+    simp only [tencode, tencodeBranch, tencodeHeader, List.append_assoc, hbm, tdecodeG]
+    rw [header_roundtrip _ f1 _ hlen]
+    simp only [f2, if_false]
+    rw [tdecodeKey_rt d _ o ho hd]
+    simp only [f3, f4, if_true, if_false, List.cons_append, List.nil_append, tdecodeBranch, hbits]
+    cases v with
+    | none =>
+      have e1 : ¬ (tbranchVariant none = branchValV) := by decide
+      have e2 : ¬ (tbranchVariant none = branchHashedV) := by decide
+      simp [e1, e2, hK]
+    | some x =>
+      have hx := hv x rfl
+      cases x with
+      | inline b =>
+        simp only [TValueOK] at hx
+        have e1 : tbranchVariant (some (.inline b)) = branchValV := rfl
+        have hs := scaleBytes_enc strict b hx (kids.flatMap tchildEnc)
+        simp [e1, tvalueEnc, hs, hK]
+      | hashed h =>
+        simp only [TValueOK] at hx
+        have e2 : tbranchVariant (some (.hashed h)) = branchHashedV := rfl
+        have e3 : ¬ (branchHashedV = branchValV) := by decide
+        have hs := tdecodeHashedValue_rt quirk h (kids.flatMap tchildEnc) hx
+        simp [e2, e3, tvalueEnc, hs, hK]
+
+theorem tdecodeHashedValue_safe (quirk : Bool) (r : Bytes) :
+    tdecodeHashedValue quirk r ≠ .panic ∧ tdecodeHashedValue quirk r ≠ .fuel := by
+  unfold tdecodeHashedValue
+  split
+  · simp
+  · split
+    · simp
+    · split <;> simp
+
+theorem tdecodeKids_safe (quirk strict : Bool) : ∀ (bits : List Bool) (r : Bytes),
+    tdecodeKids quirk strict bits r ≠ .panic ∧ tdecodeKids quirk strict bits r ≠ .fuel := by
+  intro bits
+  induction bits with
+  | nil => intro r; simp [tdecodeKids]
+  | cons b bs ih =>
+    intro r
+    cases b with
+    | false =>
+      simp only [tdecodeKids]
+      have := ih r
+      split <;> simp_all
+    | true =>
+      simp only [tdecodeKids]
+      cases hs : scaleBytes strict r with
+      | none => simp
+      | some p =>
+        obtain ⟨hash, r'⟩ := p
+        simp only []
+        have h2 := ih r'
+        by_cases hl : hash.length < 32
+        · simp only [hl, if_true]
+          split <;> simp_all
+        · simp only [hl, if_false]
+          have hu : unmarshalH256 quirk hash = some (if (quirk && (hash.take 32).all (· == 0)) = true then [] else hash.take 32) := by
+            simp [unmarshalH256, hl]
+          rw [hu]
+          simp only []
+          split <;> simp_all
+
+theorem tdecodeLeaf_safe (quirk strict : Bool) (v : Variant) (d : Bytes) (o : Nat) (r : Bytes) :
+    tdecodeLeaf quirk strict v d o r ≠ .panic ∧ tdecodeLeaf quirk strict v d o r ≠ .fuel := by
+  unfold tdecodeLeaf
+  have hh := tdecodeHashedValue_safe quirk r
+  split
+  · split <;> simp_all
+  · split <;> simp
+
+theorem tdecodeBranch_safe (quirk strict : Bool) (v : Variant) (d : Bytes) (o : Nat) (r : Bytes) :
+    tdecodeBranch quirk strict v d o r ≠ .panic ∧ tdecodeBranch quirk strict v d o r ≠ .fuel := by
+  unfold tdecodeBranch
+  have hK := tdecodeKids_safe quirk strict
+  split
+  · rename_i b0 b1 r2
+    dsimp only
+    split
+    · cases hs : scaleBytes strict r2 with
+      | none => simp
+      | some q =>
+        obtain ⟨val, r3⟩ := q
+        simp only []
+        have := hK (bitmapBits b0 b1) r3
+        split <;> simp_all
+    · split
+      · have hh := tdecodeHashedValue_safe quirk r2
+        cases hs : tdecodeHashedValue quirk r2 with
+        | ok q =>
+          obtain ⟨hv, r3⟩ := q
+          simp only []
+          have := hK (bitmapBits b0 b1) r3
+          split <;> simp_all
+        | err e => simp
+        | panic => exact absurd hs hh.1
+        | fuel => exact absurd hs hh.2
+      · have := hK (bitmapBits b0 b1) r2
+        split <;> simp_all
+  · simp
+
+theorem tdecodeKey_safe (pkl : Nat) (r : Bytes) : tdecodeKey pkl r ≠ .panic ∧ tdecodeKey pkl r ≠ .fuel := by
+  unfold tdecodeKey
+  split
+  · simp
+  · simp only []
+    split
+    · simp
+    · split <;> simp
+
+/-- **Robustness (triedb codec).**  `codec.Decode` returns a node or an error for every byte string:
+    in particular the `panic(err)` after `scale.Unmarshal` in `decodeBranch` is unreachable. -/
+theorem C07_tdecode_no_panic (quirk strict : Bool) (bs : Bytes) :
+    tdecodeG quirk strict bs ≠ .panic ∧ tdecodeG quirk strict bs ≠ .fuel := by
+  unfold tdecodeG
+  have hh := decodeHeader_safe bs
+  cases hdr : decodeHeader bs with
+  | err e => simp
+  | panic => exact absurd hdr hh.1
+  | fuel => exact absurd hdr hh.2
+  | ok p =>
+    obtain ⟨v, pkl, r⟩ := p
+    simp only []
+    split
+    · simp
+    · have hk := tdecodeKey_safe pkl r
+      cases hkey : tdecodeKey pkl r with
+      | err e => simp
+      | panic => exact absurd hkey hk.1
+      | fuel => exact absurd hkey hk.2
+      | ok q =>
+        obtain ⟨d, o, r1⟩ := q
+        simp only []
+        split
+        · exact tdecodeLeaf_safe quirk strict v d o r1
+        · split
+          · exact tdecodeBranch_safe quirk strict v d o r1
+          · simp
+
+/-- **Round trip (triedb codec), as the code is** (`_partial`: hashes must not be all zero).
+    Full statement: `TWF false n → tdecode strict (tencode n) = .ok n`; it fails, see
+    `C07_tnode_roundtrip_counterexample`. -/
+theorem C07_tnode_roundtrip_partial (strict : Bool) (n : TNode) (hwf : TWF true n) :
+    tdecode strict (tencode n) = .ok n := tnode_roundtrip true strict n hwf
+
+/-- the same without the restriction, for a decoder whose `H256.UnmarshalSCALE` keeps the zero hash -/
+theorem C07_tnode_roundtrip_spec (strict : Bool) (n : TNode) (hwf : TWF false n) :
+    tdecodeG false strict (tencode n) = .ok n := tnode_roundtrip false strict n hwf
+
+/-- a leaf whose value hash is 32 zero bytes does not decode back to itself -/
+theorem C07_tnode_roundtrip_counterexample :
+    ∃ n, TWF false n ∧ ∀ strict, tdecode strict (tencode n) ≠ .ok n := by
+  refine ⟨.leaf [] 0 (.hashed (List.replicate 32 0)), ?_, ?_⟩
+  · simp [TWF, TValueOK, HashOK]
+  · intro strict
+    have : tdecode strict (tencode (.leaf [] 0 (.hashed (List.replicate 32 0)))) =
+        .ok (.leaf [] 0 (.hashed [])) := by cases strict <;> rfl
+    rw [this]
+    simp
+
+/-- non-vacuity of the triedb round trip -/
+example : TWF true (.branch [0x0a, 0xbc] 1 (some (.hashed (List.replicate 32 7)))
+    ([.inline [0x41, 0x00], .hashed (List.replicate 32 9)] ++ List.replicate 14 .none)) := by
+  simp [TWF, TValueOK, TChildOK, HashOK, List.replicate]
+
+
 end Gossamer.C07
